@@ -274,6 +274,7 @@ class Policy:
     def __init__(self, kind="count", rng=None, p=0.0, sched=None, role=None, first_n=2):
         self.kind, self.rng, self.p, self.sched, self.role, self.first_n = kind, rng, p, sched, role, first_n
         self.sites = {}
+        self.p_lazy = 0.5
         self.events = 0
         self.yields = 0
         self.last = None
@@ -330,7 +331,9 @@ class Injector:
             if n < pol.first_n:
                 pol.yields += 1
                 time.sleep(pol.rng.choice((0.0, 5e-5, 2e-4)))
-            elif pol.rng.random() < pol.p:
+            elif pol.rng.random() < (pol.p if code.co_filename.endswith("recursion.py") else pol.p_lazy):
+                # lines of the lazily initialised shared state outside the analysis (memo getters, RecMethod, LazyConversion,
+                # factories) are few: give way at every second one, so that threads step through them almost line by line
                 pol.yields += 1
                 time.sleep(0)
             return
